@@ -467,6 +467,13 @@ func (g *genState) genDoc(forUpdate bool, wrongOK bool) Val {
 		}
 		setPath(&d, ix.path, v)
 	}
+	// a non-indexed sibling next to nested indexed leaves: selecting a leaf is then not selecting its parent
+	for i := range d.M {
+		if d.M[i].K == "nested" && d.M[i].V.K == kMap && r.IntN(2) == 0 {
+			setPath(&d, "nested.m", vMap(KV{"j", vStr(g.genStr())}, KV{"k", vInt(int64(r.IntN(5)))})) // always a map: paths below it never run into a scalar
+			break
+		}
+	}
 	// extra, non-indexed content
 	if r.IntN(2) == 0 {
 		d.M = append(d.M, KV{"extra", []Val{vStr(g.genStr()), vInt(g.genInt()), vF64(g.genFloat()), vBool(r.IntN(2) == 0), vNil(), vArr(vInt(1), vStr("x"), vArr()), vMap(KV{"k", vStr("v")}, KV{"n", vInt(2)})}[r.IntN(7)]})
